@@ -205,6 +205,9 @@ func (w *World) LoadEmitted() error {
 	if q, ok := w.ByPath["context"]; ok && q.Types != nil {
 		w.ByName["context"] = q.Types
 	}
+	if q, ok := w.ByPath["buf.build/go/protovalidate"]; ok && q.Types != nil {
+		w.ByName["protovalidate"] = q.Types
+	}
 	return nil
 }
 
